@@ -128,6 +128,25 @@ pub const URL_ENCODE: &AsciiSet = &NON_ALPHANUMERIC
     .remove(b'.')
     .remove(b'~');
 
+/// The characters of a literal pattern segment that must be escaped when it is written into a
+/// route: those that cannot occur in the path of a route URI. The escape character itself is
+/// excluded so that escapes that are already present in the pattern are retained.
+const LITERAL_ENCODE: &AsciiSet = &URL_ENCODE
+    .remove(b'%')
+    .remove(b'$')
+    .remove(b'+')
+    .remove(b'!')
+    .remove(b'*')
+    .remove(b'\'')
+    .remove(b'(')
+    .remove(b')')
+    .remove(b',')
+    .remove(b':')
+    .remove(b'@')
+    .remove(b'&')
+    .remove(b'=')
+    .remove(b';');
+
 impl RoutePattern {
     /// Attempt to parse a pattern from its string representation.
     pub fn parse<I>(pattern: I) -> Result<RoutePattern, ParseError>
@@ -314,7 +333,8 @@ impl RoutePattern {
                     }
                 }
             } else {
-                route.push_str(segment_str);
+                let encoded = utf8_percent_encode(segment_str, LITERAL_ENCODE);
+                write!(&mut route, "{}", encoded).expect("Formatting should not fail.");
             }
         }
         if let Some(missing) = missing {
